@@ -386,12 +386,14 @@ pub struct BoxFuture<'a, T> { _p: core::marker::PhantomData<(fn(&'a ()), T)> }
 impl<'a, T> BoxFuture<'a, T> {
     pub uninterp spec fn done(&self) -> bool;
     pub uninterp spec fn polls(&self) -> nat;
+    /// the most recent poll returned Pending (the future holds the task's waker)
+    pub uninterp spec fn parked(&self) -> bool;
     #[verifier::external_body]
     pub fn as_mut(&mut self) -> (r: &mut Self) ensures *r == *old(self), *final(r) == *final(self) { unimplemented!() }
     #[verifier::external_body]
     pub fn poll(&mut self, cx: &mut Context<'_>) -> (r: Poll<T>)
         requires !old(self).done(),
-        ensures final(self).done() == (r is Ready), final(self).polls() == old(self).polls() + 1,
+        ensures final(self).done() == (r is Ready), final(self).polls() == old(self).polls() + 1, final(self).parked() == (r is Pending),
     { unimplemented!() }
 }
 
@@ -444,6 +446,8 @@ impl<T> JoinAll<T> {
         r matches Poll::Ready(v) ==> v@.len() == old(self).fut@.len(),
         r matches Poll::Ready(v) ==> forall|i: int| 0 <= i < old(self).fut@.len() ==> (old(self).fut@[i] matches JoinFuture::Result(Some(x)) ==> #[trigger] v@[i] == x),
         r is Pending ==> final(self).wf() && exists|i: int| 0 <= i < final(self).fut@.len() && (#[trigger] final(self).fut@[i]) is Future,
+        // Pending only with a wake-up arranged: some unfinished future was polled in this call and answered Pending   [C06]
+        r is Pending ==> exists|i: int| 0 <= i < final(self).fut@.len() && ((#[trigger] final(self).fut@[i]) matches JoinFuture::Future(f) && f.parked()),   // [C06]
         // a future that has completed is never polled again (the stub's precondition), and already-stored results stay
         forall|i: int| 0 <= i < old(self).fut@.len() ==> (old(self).fut@[i] is Result && r is Pending ==> #[trigger] final(self).fut@[i] == old(self).fut@[i]),
 //@insert loop_start=1
@@ -454,10 +458,10 @@ impl<T> JoinAll<T> {
                 assert(forall|w: int| 0 <= w < k0 ==> self.fut@[w] == r9_prev[w]);
                 if !ready {
                     if !was_ready {
-                        let w0 = choose|w: int| 0 <= w < k0 && (#[trigger] r9_prev[w]) is Future;
-                        assert(self.fut@[w0] is Future);
+                        let w0 = choose|w: int| 0 <= w < k0 && ((#[trigger] r9_prev[w]) matches JoinFuture::Future(f) && f.parked());
+                        assert(self.fut@[w0] matches JoinFuture::Future(f) && f.parked());
                     } else {
-                        assert(self.fut@[k0] is Future);
+                        assert(self.fut@[k0] matches JoinFuture::Future(f) && f.parked());
                     }
                 }
             }
@@ -469,7 +473,7 @@ impl<T> JoinAll<T> {
             forall|i: int| 0 <= i < r9_n ==> match #[trigger] self.fut@[i] { JoinFuture::Future(f) => !f.done(), JoinFuture::Result(o) => o is Some },
             forall|i: int| 0 <= i < r9_n ==> (old(self).fut@[i] is Result ==> #[trigger] self.fut@[i] == old(self).fut@[i]),
             ready ==> forall|i: int| 0 <= i < r9_n ==> (#[trigger] self.fut@[i]) is Result,
-            !ready ==> exists|w: int| 0 <= w < r9_n && (#[trigger] self.fut@[w]) is Future,
+            !ready ==> exists|w: int| 0 <= w < r9_n && ((#[trigger] self.fut@[w]) matches JoinFuture::Future(f) && f.parked()),
         decreases self.fut@.len() - r9_n,
 //@loop 2
         invariant
